@@ -1,0 +1,62 @@
+//go:build verif
+
+package vm
+
+import (
+	"unsafe"
+
+	"github.com/goghcrow/yae/compiler"
+	"github.com/goghcrow/yae/parser/ast"
+	"github.com/goghcrow/yae/val"
+)
+
+// Verification hooks (build tag verif): read-only views of emitted bytecode,
+// explicit selection of the dispatch loop, and a per-instruction step hook.
+
+type Bytecode = bytecode
+
+func CompileBytecode(expr ast.Expr, env1 *val.Env) *Bytecode {
+	return NewCompile().Compile(expr, env1)
+}
+
+func (b *bytecode) Code() []byte          { return b.code }
+func (b *bytecode) Consts() []interface{} { return b.data }
+
+// ThunkBody returns the body of a deferred argument stored in the constant pool
+func ThunkBody(v *val.Val) *Bytecode {
+	return (*thunkVal)(unsafe.Pointer(v)).bytecode
+}
+
+func OpName(b byte) (string, bool) {
+	if opcode(b) >= _END_ {
+		return "", false
+	}
+	return opcode(b).String(), true
+}
+
+// StepHook is called before every instruction executed by the switch loop
+var StepHook func(b *Bytecode, pc int, op byte, sp int)
+
+func stepHook(v *VM, op opcode) {
+	if StepHook != nil {
+		StepHook(v.bytecode, v.pc-1, byte(op), v.sp)
+	}
+}
+
+func RunSwitch(b *Bytecode, env *val.Env) *val.Val {
+	v := NewVM()
+	v.interp = switchThreading
+	return v.Interp(b, env)
+}
+
+func RunCallThreaded(b *Bytecode, env *val.Env) *val.Val {
+	v := NewVM()
+	v.interp = callThreading
+	return v.Interp(b, env)
+}
+
+// CompileCallThreaded is vm.Compile with the call-threaded dispatch loop
+func CompileCallThreaded(expr ast.Expr, env1 *val.Env) compiler.Closure {
+	b := NewCompile().Compile(expr, env1)
+	return func(env *val.Env) *val.Val { return RunCallThreaded(b, env) }
+}
